@@ -328,7 +328,7 @@ func init() {
 		rtl := fs.String("rtl", "no", "no|yes|both")
 		out := fs.String("o", "-", "output file")
 		stream := fs.Uint64("stream", 1, "PRNG stream")
-		profile := fs.String("profile", "fragment", "fragment (exact oracle applies) | wide (nullable loops, \\G, balancing groups: relational only) | balancing (wide, every pattern has a group popped by a balancing group)")
+		profile := fs.String("profile", "fragment", "fragment (exact oracle applies) | wide (nullable loops, \\G, balancing groups: relational only) | balancing (every pattern has a group popped by a balancing group) | sparse (explicitly numbered groups with gaps and a reference to one of them; relational only)")
 		nrepl := fs.Int("repl", 2, "replacement strings per input")
 		invalid := fs.Float64("invalid", 0.3, "probability of injecting invalid UTF-8 into an input")
 		caseFile := fs.String("case", "", "replay: JSON {p,o,dia,rtl,exact,b,repls}")
@@ -412,6 +412,9 @@ func init() {
 		if *profile == "balancing" {
 			cfg.Balancing = true // inside the exact oracle: RegexSem has the balancing-group rule
 		}
+		if *profile == "sparse" {
+			exact = false // the specification's numbering is dense: relational rules only
+		}
 		g := &Gen{r: newRand(seedFromEnv(), *stream), c: cfg}
 		alpha := inputAlphabet(cfg)
 		compileErrs, cases, skipped := 0, 0, 0
@@ -427,7 +430,12 @@ func init() {
 			if *profile == "balancing" {
 				t = g.BalPattern(isRTL)
 			}
-			g.resolveRefs(t, has(o, "n"))
+			if *profile == "sparse" {
+				t = g.SparsePattern(isRTL)
+			}
+			if *profile != "sparse" { // the sparse shape names its reference targets itself
+				g.resolveRefs(t, has(o, "n"))
+			}
 			p := Flatten(t)
 			text := PrintPat(p, PrintOpts{X: has(o, "x"), RE2: dia == "re2", XNoise: g.pick(3)})
 			re, err := compile(text, optBits(o, dia, isRTL))
